@@ -1,4 +1,42 @@
-import JV.Basic.JVal
-namespace JV.Props.C18
-theorem placeholder : True := trivial
-end JV.Props.C18
+/-
+  C18 — CSV and TOON text round-trip tabular and tree data.
+
+  Proved (CSV field and row layer, `JV.Model.Csv`): for every delimiter, quote and quote-escape character that can be told apart
+  (`Opts.Compatible`), every quote style that quotes when needed (minimal, all, nonnumeric) and every byte string,
+    * the field the encoder writes is read back by the parser's field scanner as exactly that byte string, the scan stopping in
+      front of the terminator that follows (`field_round_trip`);
+    * a field containing the delimiter, the quote character, CR or LF is written quoted (`field_with_special_is_quoted`);
+    * a whole record of any number of such fields is read back as those fields (`row_round_trip`).
+  The model is tied to the code in both directions on every run: the encoder model must produce byte-for-byte the CSV text the real
+  encoder writes for generated tables, and the parser model must read arbitrary texts over the significant characters exactly as
+  the real parser does (rows or error).
+
+  Not proved, checked by the round-trip streams on the real code only: record assembly for the three table shapes, headers, type
+  inference, and all of TOON (no model; see DESIGN.md).
+-/
+import JV.Proofs.Csv
+namespace JV
+namespace Props
+namespace C18
+open Model.Csv
+
+theorem field_round_trip (o : Opts) (hc : o.Compatible) (st : Style) (hst : st ≠ .none) (s rest : Bytes)
+    (hrest : rest = [] ∨ ∃ t r, rest = t :: r ∧ isTerm o t = true) :
+    scanField o (writeField o st s ++ rest) = .ok (quotes o st s, s, rest) := field_roundtrip o hc st hst s rest hrest
+
+theorem field_with_special_is_quoted (o : Opts) (st : Style) (hst : st ≠ .none) (s : Bytes) (h : needsQuote o s = true) :
+    quotes o st s = true := special_field_is_quoted o st hst s h
+
+theorem row_round_trip (o : Opts) (hc : o.Compatible) (st : Style) (hst : st ≠ .none) (tail : Bytes)
+    (htail : tail = [] ∨ ∃ t r, tail = t :: r ∧ (t = 10 ∨ t = 13)) (fields : List Bytes) (hne : fields ≠ []) :
+    scanRow o fields.length (writeRow o st fields ++ tail) = .ok (fields, tail) :=
+  row_roundtrip o hc st hst tail htail fields hne fields.length (Nat.le_refl _)
+
+/-! non-vacuity: the usual option sets are compatible -/
+example : ({ delim := 44, quote := 34, esc := 34 } : Opts).Compatible := by simp [Opts.Compatible]
+example : ({ delim := 9, quote := 39, esc := 92 } : Opts).Compatible := by simp [Opts.Compatible]
+example : writeField { delim := 44, quote := 34, esc := 34 } .minimal [97, 10, 34] = [34, 97, 10, 34, 34, 34] := by decide
+
+end C18
+end Props
+end JV
